@@ -947,5 +947,50 @@ def verify_pool_async(E, prop="C10"):
     E.case_suffix = ""
 
 
+def verify_pool_ctor(E, prop="C09"):
+    """ObjectPool.__init__: the arguments reach the fields get/release/destroy/clear read; max_size None -> 2**31; and the idle clock is
+    the real clock exactly when an idle timeout is configured - with the default 0 it is the constant `float` (0.0), so `now -
+    last_used <= idle_timeout` always holds and a healthy connection is never discarded (the documented meaning of 0)."""
+    q = P + ".__init__"
+    T = lambda b: z3.BoolVal(bool(b))
+    for ilabel in ("idle=0", "idle>0"):
+        for mlabel in ("max_size=None", "max_size=int"):
+            E.case_suffix = "/%s,%s" % (ilabel, mlabel)
+            st = State()
+            creator, after = OpaqueV(z3.Const("obj_creator", Py), tag="creator"), OpaqueV(z3.Const("after_remove", Py), tag="after")
+            it = z3.Int("idle_timeout_arg")
+            st.assume(it == 0 if ilabel == "idle=0" else it > 0)
+            ms = z3.Int("max_size_arg")
+            st.assume(ms > 0)
+            maxv = NONE if mlabel == "max_size=None" else IntV(ms)
+            E.hooks["collections.deque"] = lambda E_, s, a, kw: [Ev(s, OpaqueV(z3.Const(fresh_name("deque"), Py), tag="deque"))]
+            E.hooks["threading.Lock"] = lambda E_, s, a, kw: [Ev(s, OpaqueV(z3.Const(fresh_name("lock"), Py), tag="lock"))]
+            me = st.new_obj(P, {})
+            pre = "%s/%s" % (prop, short(q))
+            for o in E.run_function(q, st, [creator], {"after_remove": after, "max_size": maxv, "idle_timeout": IntV(it), "lock_generator": NONE}, selfv=me):
+                s = o.st
+                if o.kind != "return":
+                    E.oblige("%s/constructor-accepts-valid-options%s" % (pre, E.case_suffix), s, T(False), func=q, meta={"raised": o.val.cls})
+                    continue
+                f = s.heap[me.ref]
+                clk = f.get("_idle_clock")
+                cname = getattr(clk, "name", None) if isinstance(clk, FuncV) else None
+                want = "float" if ilabel == "idle=0" else "time.time"
+                E.oblige("%s/idle-clock-is-%s%s" % (pre, "the-constant-float(0.0):nothing-ever-expires" if ilabel == "idle=0" else "the-real-clock", E.case_suffix), s,
+                         T(cname == want), func=q, meta={"clock": cname})
+                mx = f.get("max_size")
+                E.oblige("%s/max_size(None->2**31,else-the-argument)%s" % (pre, E.case_suffix), s,
+                         (mx.t == (2 ** 31 if mlabel == "max_size=None" else ms)) if isinstance(mx, IntV) else T(False), func=q)
+                E.oblige("%s/creator,after_remove,idle_timeout-are-stored%s" % (pre, E.case_suffix), s,
+                         z3.And(T(f.get("_obj_creator") is creator and f.get("_after_remove") is after), f["idle_timeout"].t == it if isinstance(f.get("idle_timeout"), IntV) else T(False)),
+                         func=q)
+                E.oblige("%s/two-deques-and-a-lock-are-created%s" % (pre, E.case_suffix), s,
+                         T(all(isinstance(f.get(x), OpaqueV) and f.get(x).tag == t for x, t in (("_used_objs", "deque"), ("_free_objs", "deque"), ("_lock", "lock")))
+                           and f.get("_used_objs") is not f.get("_free_objs")), func=q)
+            E.hooks.pop("collections.deque", None)
+            E.hooks.pop("threading.Lock", None)
+    E.case_suffix = ""
+
+
 from pyvc.sym import guard_units as _guard_units
 _guard_units(globals())
